@@ -78,6 +78,37 @@ def parseOp (s : String) : Option Lzma.RawOp :=
 
 def boolOf (s : String) : Bool := s = "1"
 
+/-- chunk spec: kind SLASH (props byte or dash) SLASH (ops joined by '.'), or for raw chunks kind SLASH dash SLASH hex -/
+def parseChunk (s : String) : Option Lzma2.Chunk :=
+  match s.splitOn "/" with
+  | [k, p, body] =>
+    match kindOfName k with
+    | none => none
+    | some kind =>
+      if kind = .eos then some { kind := .eos, usize := 0 }
+      else if kind = .u ∨ kind = .ud then
+        let raw := unhex body
+        some { kind := kind, usize := raw.size, raw := raw }
+      else
+        let props := if p = "-" then none else p.toNat?.bind Lzma2.propsOfByte
+        match (body.splitOn ".").filter (· ≠ "") |>.mapM parseOp with
+        | some ops => some { kind := kind, usize := 0, props := props, ops := ops.toArray }
+        | none => none
+  | _ => none
+
+/-- block specs separated by the token `B`: `B <extraPad> <cs> <us> <dictCode> <chunk>...` -/
+partial def parseBlocks (toks : List String) (acc : Array Xz.BlockSpec) : Option (Array Xz.BlockSpec) :=
+  match toks with
+  | [] => some acc
+  | "B" :: ep :: cs :: us :: dc :: rest =>
+    let chunkToks := rest.takeWhile (· ≠ "B")
+    let rest' := rest.dropWhile (· ≠ "B")
+    match ep.toNat?, dc.toNat?, chunkToks.mapM parseChunk with
+    | some ep, some dc, some cks =>
+      parseBlocks rest' (acc.push { extraPad := ep, withCs := boolOf cs, withUs := boolOf us, dictCode := dc, chunks := cks.toArray })
+    | _, _, _ => none
+  | _ => none
+
 def handle (line : String) : String :=
   match (line.trimAscii.toString.splitOn " ").filter (· ≠ "") with
   | ["dictsizes"] => " ".intercalate ((List.range 41).map (fun c => toString (Spec.dictSize c)))
@@ -129,6 +160,21 @@ def handle (line : String) : String :=
     match r.header, r.status.isClean with
     | some hd, true => hex (Lzma1.encode hd r.ops false)
     | _, _ => s!"fail {repr r.status}"
+  -- lzma2build <cap> <chunk>... → LZMA2 bytes from chunk specs (spec encoder)
+  | "lzma2build" :: cap :: cks => match cap.toNat?, cks.mapM parseChunk with
+    | some cap, some cks => hex (Lzma2.emit cap cks.toArray)
+    | _, _ => "bad-op"
+  -- xzbuild <flags> <padAfter> B … → one .xz stream
+  | "xzbuild" :: flags :: pad :: rest => match flags.toNat?, pad.toNat?, parseBlocks rest #[] with
+    | some f, some pa, some bs => hex (Xz.buildStream f bs pa)
+    | _, _, _ => "bad-op"
+  -- lzmabuild <propsByte> <dictCap> <size or -> <marker 0/1> <ops> → classic .lzma stream
+  | ["lzmabuild", pb, dc, sz, mk, ops] =>
+    match pb.toNat?.bind Lzma2.propsOfByte, dc.toNat?, ((ops.splitOn ".").filter (· ≠ "")).mapM parseOp with
+    | some p, some dc, some ops =>
+      let size := if sz = "-" then none else sz.toNat?
+      hex (Lzma1.encode { props := p, dictCap := dc, size := size } ops.toArray (boolOf mk))
+    | _, _, _ => "bad-op"
   | ["lzmaops", h] =>
     let r := Lzma1.read 0 (unhex h)
     " ".intercalate (r.ops.toList.map opStr)
